@@ -51,3 +51,15 @@ Definition route_path (m : meth) (p : bytes) : proute :=
   | MDelete => PItemRemove (trim_slashes p)
   | MOther => PNotFound
   end.
+
+(* query parameters read through a HashMap collected from the decoded pairs (context, follow on the
+   head route): the LAST occurrence of a key is the one in force *)
+Fixpoint param_last (k : bytes) (ps : list (bytes * bytes)) : option bytes :=
+  match ps with
+  | [] => None
+  | (k', v) :: r =>
+      match param_last k r with
+      | Some w => Some w
+      | None => if bytes_eqb k k' then Some v else None
+      end
+  end.
